@@ -261,16 +261,10 @@ def shard_cases(path):
 
 
 def load_known():
-    """known_findings.json plus per-property known/Cxx.json (same format)."""
-    out = []
-    paths = [os.path.join(VERIF, "known_findings.json")]
-    kd = os.path.join(VERIF, "known")
-    if os.path.isdir(kd):
-        paths += [os.path.join(kd, f) for f in sorted(os.listdir(kd)) if f.endswith(".json")]
-    for path in paths:
-        if os.path.exists(path):
-            out += json.load(open(path)).get("findings", [])
-    return out
+    path = os.path.join(VERIF, "known_findings.json")
+    if not os.path.exists(path):
+        return []
+    return json.load(open(path)).get("findings", [])
 
 
 def main(prop, spec):
